@@ -1,6 +1,7 @@
 import ZipVerif.Lemmas.FaultRun
 import ZipVerif.Lemmas.FaultReader
 import ZipVerif.Lemmas.FaultAppend
+import ZipVerif.Lemmas.FaultVisit
 import ZipVerif.Lemmas.MRun
 import ZipVerif.Props.C05
 import ZipVerif.Props.C12
@@ -32,7 +33,9 @@ C. a fault that fires inside a call is that call's error — `fired_fault_is_err
    and EVERY failure of the probe seek, of whatever kind, is reported (`probe_seek_error_reported`,
    `probe_injected_fault_reported`).
 D. headline: `all_ok_is_faultfree`, `fault_outcome_dichotomy` (writer), `open_ok_is_faultfree`,
-   `read_scenario_dichotomy`, `stream_ok_is_faultfree_partial` (readers; the full streaming clause is false: K-J), `append_ok_is_faultfree`
+   `read_scenario_dichotomy`, `visit_fired_fault_is_error` / `visit_ok_is_faultfree` (`ZipStreamReader::visit`, ANY visitor
+   consumption pattern: full strength since the visitor API drains explicitly), `stream_ok_is_faultfree_partial` (the
+   bare `read_zipfile_from_stream`: the full clause is false, K-J), `append_ok_is_faultfree`
 E. concrete runs evaluated by the kernel, including the D18 regressions (`d18_regression`,
    `d18_regression_every_kind`) and the witnesses against the pre-repair definitions
    (`d18_pre_fix_witness`, `d18_invalid_input_pre_fix_witness`).
@@ -214,8 +217,9 @@ theorem read_fired_fault_is_error (ext : Ext) (a : Archive) (i : Nat) (name : By
   ⟨(byIndexRead_tight ext a i pw).reports, (byNameRead_tight ext a name pw).reports,
    (byIndexRaw_tight a i).reports⟩
 
-/-- **The streaming reader, consumers that read every entry to its end** (`ZipStreamReader::visit` with a
-visitor that reads each entry to end-of-file, `extract`): a fault that fires is returned as that very error.
+/-- **The bare streaming function, consumers that read every entry to its end** (also the pre-repair
+`ZipStreamReader::visit` with a visitor that reads each entry to end-of-file): a fault that fires is returned as that
+very error.  (`visit` itself, under ANY visitor: `visit_fired_fault_is_error`.)
 
 `_partial`: the full clause — ANY consumer of `read_zipfile_from_stream`, in particular one that reads part of an
 entry and drops the handle — is FALSE (`stream_drain_fault_swallowed`, known finding K-J): `Drop for ZipFile`
@@ -238,6 +242,53 @@ theorem stream_entries_unreached_fault (ext : Ext) (pattern : List Consume) (fue
     (hn : ¬ Fired k d (streamEntriesC ext pattern fuel i (some k) d).2) :
     streamEntriesC ext pattern fuel i (some k) d = streamEntriesC ext pattern fuel i none d :=
   (streamEntriesC_uniform ext pattern fuel i).same_of_not_fired hn
+
+/-- **`visit_fired_fault_is_error` — `ZipStreamReader::visit` under ANY visitor consumption pattern** (each entry:
+`k` decoded bytes asked for, `pulled` compressed bytes pulled through the `Take`; a visitor that returns a failed
+read to `visit`, as `extract` does): a fault that fires at ANY I/O call of `visit` — a header, one of the visitor's
+reads, the drain of what the visitor left unread, the central directory — makes `visit` return an error.  Full
+strength, no `_partial`: since the repair `visit` drains every entry itself (`ZipFile::drain_stream`) and returns the
+drain's read error; before it the drain ran in `Drop` and swallowed it (K-J; `visit_pre_fix_witness`).
+Hypothesis `hk`: the device's failures are hard ones.  A failure of kind `Interrupted` is, by std's convention,
+retried where the code sits in a retry loop — every header read (`read_exact`) and, since the repair, the drain —
+and is then invisible (`visit_interrupted_invisible`); in the visitor's own bare reads it is an error like any other. -/
+theorem visit_fired_fault_is_error (ext : Ext) (pattern : List Consume) (k : Nat) (d : Dev)
+    (hk : d.fkind ≠ .interrupted) (hf : Fired k d (streamVisitC ext pattern (some k) d).2) :
+    ∃ e, (streamVisitC ext pattern (some k) d).1 = .err e :=
+  streamVisitC_errOnFireH ext pattern k d hk hf
+
+/-- **`visit_ok_is_faultfree`**: `visit` returning `Ok` under a fault — any consumption pattern — showed the visitor
+exactly what the failure-free run shows (entries, bytes, metadata records; same device). -/
+theorem visit_ok_is_faultfree (ext : Ext) (pattern : List Consume) {k : Nat} {d d' : Dev}
+    {r : List (FileData × Bytes) × List FileData} (hk : d.fkind ≠ .interrupted)
+    (h : streamVisitC ext pattern (some k) d = (.ok r, d')) : streamVisitC ext pattern none d = (.ok r, d') := by
+  by_cases hf : Fired k d (streamVisitC ext pattern (some k) d).2
+  · obtain ⟨e, he⟩ := visit_fired_fault_is_error ext pattern k d hk hf
+    rw [h] at he
+    cases he
+  · rw [← (streamVisitC_uniform ext pattern).same_of_not_fired hf]
+    exact h
+
+/-- … and, for every kind (`Interrupted` included), a fault index `visit` does not reach changes nothing. -/
+theorem visit_unreached_fault (ext : Ext) (pattern : List Consume) (k : Nat) (d : Dev)
+    (hn : ¬ Fired k d (streamVisitC ext pattern (some k) d).2) :
+    streamVisitC ext pattern (some k) d = streamVisitC ext pattern none d :=
+  (streamVisitC_uniform ext pattern).same_of_not_fired hn
+
+/-- **`Interrupted` inside one of std's retry loops is invisible** (`read_exact`, `write_all`, `read_to_end`,
+`io::copy`, the loop of `drain_stream`): for a computation all of whose I/O calls sit in such loops (`M.retried m`: the
+header reads, the drain, the central directory of the streaming reader), a device failing with `Interrupted` at a call
+`m` makes yields the failure-free outcome and device, with one more call counted. -/
+theorem visit_interrupted_invisible {α} (m : M α) (k : Nat) (d : Dev) (hi : d.fkind = .interrupted)
+    (hf : Fired k d (m none d).2) :
+    M.retried m (some k) d = ((m none d).1, { (m none d).2 with calls := (m none d).2.calls + 1 }) :=
+  M.retried_interrupted m k d hi hf
+
+/-- … and on a device failing with any other kind a retry loop changes nothing: the `Interrupted`-aware entry step
+of the bare streaming function is `streamEntryC`. -/
+theorem stream_entry_hard_kinds (ext : Ext) (c : Consume) (fa : Option Nat) (d : Dev) (hk : d.fkind ≠ .interrupted) :
+    streamEntryCI ext c fa d = streamEntryC ext c fa d :=
+  streamEntryCI_hard ext c fa d hk
 
 /-- **`ZipArchive::new`**: a fault that fires — at ANY I/O call — is reported as an error (the injected
 one; `InvalidArchive` when it hit the seek to the central directory, which the crate maps to that). -/
@@ -508,7 +559,8 @@ example : (List.range 35).all (fun k =>
 example : (List.range (streamVisit storedExt none (Dev.ofBytes C05.oneEntry)).2.calls).all (fun k =>
     isInjected (streamVisit storedExt (some k) (Dev.ofBytes C05.oneEntry)).1) = true := by decide +kernel
 
-/-! ### K-J: a read error in the drain of a dropped streamed entry is swallowed (known finding) -/
+/-! ### K-J: a read error in the drain of a dropped streamed entry is swallowed (known finding of the BARE function
+`read_zipfile_from_stream`; repaired for `ZipStreamReader::visit` / `extract`: `visit_regression`) -/
 
 /-- A 314-byte stream: stored entry `a` whose content is `"head"` followed by a complete stored archive with the one
 entry `evil`; stored entry `b`; the central directory (built with CPython `zipfile`). -/
@@ -553,6 +605,71 @@ theorem stream_drain_fault_swallowed :
       (streamEntriesC storedExt [{ k := 4, pulled := 4 }] 8 0 (some 13) (Dev.ofBytes nestedStream)).2 := by
   decide +kernel
 
+/-- the error / the value of an outcome (projections with decidable equality) -/
+def errOf {α} : Out α → Option ZErr
+  | .err e => some e
+  | _ => none
+def okOf {α} : Out α → Option α
+  | .ok a => some a
+  | _ => none
+
+/-- **Regression (`visit_regression`)**: the same stream, the same consumer (4 bytes of each entry) and the same fault
+through `ZipStreamReader::visit`: failure-free the visitor is shown `a`, `b` and their two metadata records; with I/O
+call 13 failing — the first read of the drain, now `visit`'s own `drain_stream()?` — `visit` returns the injected
+error (`fault.visit … consume=4 k=14` in corpus/fault.ops: the same with 64 KiB of filler, second drain read), and so
+it does for EVERY fault index of the run; hypotheses of `visit_fired_fault_is_error` / `visit_ok_is_faultfree`
+instantiated. -/
+theorem visit_regression :
+    ((streamVisitC storedExt [{ k := 4, pulled := 4 }] none (Dev.ofBytes nestedStream)).1.isOk = true ∧
+     (streamVisitC storedExt [{ k := 4, pulled := 4 }] none (Dev.ofBytes nestedStream)).2.calls = 65) ∧
+    errOf (streamVisitC storedExt [{ k := 4, pulled := 4 }] (some 13) (Dev.ofBytes nestedStream)).1
+      = some (.io .injected) ∧
+    Fired 13 (Dev.ofBytes nestedStream)
+      (streamVisitC storedExt [{ k := 4, pulled := 4 }] (some 13) (Dev.ofBytes nestedStream)).2 ∧
+    (List.range 65).all (fun k =>
+      C05.isErr (streamVisitC storedExt [{ k := 4, pulled := 4 }] (some k) (Dev.ofBytes nestedStream)).1) = true := by
+  decide +kernel
+
+/-- `visit` as it was before the repair: the entry loop is the bare function's (`streamEntriesC`: the drain runs in
+`Drop`, silently), then the central directory. -/
+def streamVisitPreFix (ext : Ext) (pattern : List Consume) : M (List Bytes × List Bytes) := do
+  let d ← M.getDev
+  let files ← streamEntriesC ext pattern (d.buf.length / 30 + 1) 0
+  let metas ← visitCentral d.buf.length
+  pure (files.map (·.1.fileName), metas.map (·.fileName))
+
+/-- **The finding, against the pre-repair definition (`visit_pre_fix_witness`)**: with I/O call 13 failing `visit`
+returned `Ok` having shown the visitor `a`, `evil` and the nested archive's one metadata record `evil`, instead of
+`a`, `b` and the records `a`, `b`.  Replayed on the unrepaired crate by `fault.visit … consume=4 k=14`. -/
+theorem visit_pre_fix_witness :
+    okOf (streamVisitPreFix storedExt [{ k := 4, pulled := 4 }] none (Dev.ofBytes nestedStream)).1
+      = some ([[0x61], [0x62]], [[0x61], [0x62]]) ∧
+    okOf (streamVisitPreFix storedExt [{ k := 4, pulled := 4 }] (some 13) (Dev.ofBytes nestedStream)).1
+      = some ([[0x61], [0x65, 0x76, 0x69, 0x6c]], [[0x65, 0x76, 0x69, 0x6c]]) := by
+  decide +kernel
+
+/-- `visit_interrupted_invisible` instantiated: a device failing with `Interrupted` at call 13 (inside the drain) or
+at call 3 (inside a header `read_exact`): `visit` succeeds with the failure-free result, 66 calls instead of 65; at
+call 12 — the visitor's own bare read — the visitor gets the error and `visit` returns it. -/
+example :
+    (streamVisitC storedExt [{ k := 4, pulled := 4 }] (some 13) (Dev.ofBytesK nestedStream .interrupted)).1.isOk = true ∧
+    (streamVisitC storedExt [{ k := 4, pulled := 4 }] (some 13) (Dev.ofBytesK nestedStream .interrupted)).2.calls = 66 ∧
+    (streamVisitC storedExt [{ k := 4, pulled := 4 }] (some 3) (Dev.ofBytesK nestedStream .interrupted)).2.calls = 66 ∧
+    errOf (streamVisitC storedExt [{ k := 4, pulled := 4 }] (some 12) (Dev.ofBytesK nestedStream .interrupted)).1
+      = some (.io .interrupted) := by
+  decide +kernel
+
+/-- **Known model limitation, stated (`interrupted_not_modelled_in_read_exact`)**: `M.readExact` / `M.writeAll` (and
+with them the seekable reader and the writer) treat a failure of EVERY kind as a hard one, whereas std's `read_exact` /
+`write_all` retry `Interrupted`: the model answers `Err(Interrupted)` where the code succeeds with one more I/O call
+(`fault.read … k=5 kind=interrupted` on `zip64Zero`: implementation `open=ok …  ncalls=52`, model
+`open=err:io:interrupted ncalls=6`).  Such faults are judged by the oracle alone on `fault.read` / `fault.write`;
+the streaming ops use `M.retried`. -/
+theorem interrupted_not_modelled_in_read_exact :
+    errOf (M.readExact 4 (some 0) (Dev.ofBytesK [1, 2, 3, 4] .interrupted)).1 = some (.io .interrupted) ∧
+    okOf (M.retried (M.readExact 4) (some 0) (Dev.ofBytesK [1, 2, 3, 4] .interrupted)).1 = some [1, 2, 3, 4] := by
+  decide +kernel
+
 /-- … whereas the same fault while every entry is read to its end is reported. -/
 example : C05.isErr (streamVisit storedExt (some 13) (Dev.ofBytes nestedStream)).1 = true := by decide +kernel
 
@@ -579,9 +696,9 @@ theorem d18_regression :
     (List.range 49).all (fun k => C05.isErr (openArchive (some k) (Dev.ofBytes zip64Zero)).1) = true := by
   decide +kernel
 
-/-- the seven `io::ErrorKind`s the crate (and this model) can tell apart -/
+/-- the eight `io::ErrorKind`s the crate, std's retry loops (and this model) can tell apart -/
 def allKinds : List IoKind :=
-  [.unexpectedEof, .other, .brokenPipe, .invalidData, .invalidInput, .writeZero, .injected]
+  [.unexpectedEof, .other, .brokenPipe, .invalidData, .invalidInput, .writeZero, .injected, .interrupted]
 
 /-- **Regression, second part (`d18_regression_every_kind`).**  Whatever kind of error the device fails
 with — `InvalidInput` included —, the probe seek (I/O call 13) failing returns exactly that error, and no
